@@ -12,8 +12,27 @@ use std::collections::HashSet;
 use crate::core::cell_info::get_num_children;
 use crate::core::serialization::{
     cell_to_children, cell_to_parent, get_resolution, get_stride, is_first_child,
-    FIRST_HILBERT_RESOLUTION, MAX_RESOLUTION,
+    FIRST_HILBERT_RESOLUTION, HILBERT_START_BIT, MAX_RESOLUTION, REMOVAL_MASK,
 };
+
+/// Position of a cell in the order in which `compact` scans its working list.
+///
+/// Cells are ordered by their ID, except the two coarsest levels, whose IDs do not sort next to
+/// their descendants: the ID of base cell `f` (`f` in the top 6 bits) falls among the quintants of
+/// another face (which use `5 * face + quintant` in the top 6 bits), so it is ordered where its
+/// own five quintants are; the world cell is ordered directly after base cell 0. This keeps sibling
+/// groups adjacent, keeps a cell between its own children (so that a group is not merged into a
+/// parent that is already present), and keeps the list ordered when a group is replaced by its parent.
+fn scan_key(cell: u64) -> (u64, u64) {
+    match get_resolution(cell) {
+        0 => {
+            let face = cell >> HILBERT_START_BIT;
+            (((5 * face) << HILBERT_START_BIT) | (cell & REMOVAL_MASK), cell)
+        }
+        -1 => ((1u64 << (HILBERT_START_BIT - 1)) + 1, cell),
+        _ => (cell, cell),
+    }
+}
 
 /// Expands a set of A5 cells to a target resolution by generating all descendant cells.
 ///
@@ -90,10 +109,10 @@ pub fn compact(cells: &[u64]) -> Result<Vec<u64>, String> {
     // Single sort and dedup
     let unique_cells: HashSet<u64> = cells.iter().copied().collect();
     let mut current_cells: Vec<u64> = unique_cells.into_iter().collect();
-    current_cells.sort_unstable();
+    current_cells.sort_unstable_by_key(|&cell| scan_key(cell));
 
     // Compact until no more changes
-    // No re-sorting needed - parents maintain sorted order!
+    // No re-sorting needed - parents maintain the scan order!
     let mut changed = true;
     while changed {
         changed = false;
